@@ -29,6 +29,12 @@ def configs(tier, seed):
                     out.append(dict(h="in_to_stock_to_in", op=solver, key=f"in_to_stock_to_in/{solver}/grid={grid}/n={n}/extra={ek}", solver=solver, grid=grid, n=n, extra=extra))
                     out.append(dict(h="stock_to_in_to_stock", op=solver, key=f"stock_to_in_to_stock/{solver}/grid={grid}/n={n}/extra={ek}", solver=solver, grid=grid, n=n, extra=extra))
                 out.append(dict(h="solvers_agree", op="both", key=f"solvers_agree/grid={grid}/n={n}/extra={ek}", grid=grid, n=n, extra=extra))
+    from checks.c09 import FIXED_SCHEDULES
+
+    for sched in FIXED_SCHEDULES:
+        for grid in ("unit", "step2"):
+            for solver in ("manual", "lapack"):
+                out.append(dict(h="fixed_concrete", op="fx" + solver, key=f"fixed_concrete/{solver}/{sched}/grid={grid}", kind="sdsm_" + solver, solver=solver, sched=sched, grid=grid, n=6, extra={"r": 2}))
     return out
 
 
@@ -46,7 +52,24 @@ def _cmp(w, tag, a, b, chain=True):
         w.ob_eq(f"{tag}{list(idx)}", a[idx], b[idx], chain=chain)
 
 
+def _fixed_roundtrip(w, st, tab, dt, dims):
+    """stock-driven result on exactly-0/1 survival tables: the found inflow reproduces the prescribed stock when it
+    drives an inflow-driven model, cohort tables included (stocks implying negative inflow included: all values free)"""
+    import flodym.lifetime_models as lm
+
+    a = dsm.build_stock("idsm", dims, lifetime=st.lifetime_model, inflow=st.inflow.values)
+    a.compute()
+    _cmp(w, "stock_reproduced", a.stock.values, st.stock.values, chain=False)
+    _cmp(w, "same_outflow", a.outflow.values, st.outflow.values, chain=False)
+    _cmp(w, "same_stock_by_cohort", a.get_stock_by_cohort(), st.get_stock_by_cohort(), chain=False)
+    _cmp(w, "same_outflow_by_cohort", a.get_outflow_by_cohort(), st.get_outflow_by_cohort(), chain=False)
+
+
 def run(cfg, w):
+    if cfg["h"] == "fixed_concrete":
+        from checks.c09 import _fixed_concrete
+
+        return _fixed_concrete(cfg, w, check=_fixed_roundtrip)
     n, extra = cfg["n"], cfg["extra"]
     y, dt, b = dsm.make_grid(w, n, cfg["grid"])
     dims = dsm.make_dims(y, extra)
